@@ -38,7 +38,10 @@ Strategies (everything is built by construction, nothing is filtered)
       * every `while` has its own counter $cN, set to 0 immediately before the loop, incremented exactly once per
         iteration and assigned nowhere else; the condition is `$cN < bound` optionally and-ed with another condition,
         so all loops (and all sliding) terminate; bound is 0..3;
-      * subflow s1 may call s0, never the other way round (no recursion); subflows read only what they assign.
+      * subflow s1 may call s0, never the other way round (no recursion); subflows read only what they assign;
+      * flows usually begin with 0-2 assignments (constants or action results) so that conditions depend on data,
+        an else-branch is a single `if` in about 1 of 5 cases (`else if` chains up to 3 long), and 7 of 8 flows
+        contain an unconditional bot/user step.
     first_intents(program) -> {flow name: first intent};  all_intents(program) -> set of all user intents
     UNKNOWN_INTENT: an intent that no generated program contains.
 
@@ -288,16 +291,41 @@ class _Builder:
         right = self.expr(defined) if k == 9 else self.atom(defined, 2)
         return {"op": self.draw(st.sampled_from(["<", "<=", ">", ">=", "==", "!="])), "l": left, "r": right}
 
+    def if_stmt(self, depth, defined, chain=0):
+        cond = self.cond(defined)
+        then, d_then = self.block(depth + 1, defined, 1, 3)
+        k = self.draw(st.integers(0, 4))
+        if k == 0:
+            return {"t": "if", "cond": cond, "then": then, "else": None}, set(defined)
+        if k == 1 and chain < 2:  # else-branch that is a single `if`: can be spelled `else if`
+            inner, d_else = self.if_stmt(depth, defined, chain + 1)
+            els = [inner]
+        else:
+            els, d_else = self.block(depth + 1, defined, 1, 3)
+        return {"t": "if", "cond": cond, "then": then, "else": els}, d_then & d_else
+
+    def prelude(self, defined):
+        """0-2 initial assignments (constant or action result) so that later conditions depend on data."""
+        out = []
+        for _ in range(self.draw(st.sampled_from([0, 1, 1, 2, 2]))):
+            var = self.draw(st.sampled_from(VARS))
+            if self.draw(st.booleans()):
+                out.append({"t": "exec", "action": self.draw(st.sampled_from(ACTIONS)), "params": {}, "result": var})
+            else:
+                out.append({"t": "set", "var": var, "expr": self.draw(st.integers(0, 4))})
+            defined.add(var)
+        return out
+
     def block(self, depth, defined, lo=1, hi=4):
         """-> (statements, variables defined afterwards)"""
         defined = set(defined)
         out = []
         for _ in range(self.draw(st.integers(lo, hi))):
-            kinds = ["bot", "bot", "bot", "user", "user", "set", "set", "exec", "exec"]
+            kinds = ["bot", "bot", "bot", "user", "user", "user", "set", "set", "exec", "exec"]
             if depth < self.max_depth:
-                kinds += ["if", "if", "while"]
+                kinds += ["if", "if", "if", "while", "while"]
             if self.callable:
-                kinds += ["do", "do"]
+                kinds += ["do", "do", "do"]
             kind = self.draw(st.sampled_from(kinds))
             if kind == "bot":
                 out.append({"t": "bot", "intent": self.draw(st.sampled_from(BOTS))})
@@ -320,14 +348,8 @@ class _Builder:
                 out.append({"t": "do", "flow": name})
                 defined |= self.sub_defs[name]
             elif kind == "if":
-                cond = self.cond(defined)
-                then, d_then = self.block(depth + 1, defined, 1, 3)
-                if self.draw(st.integers(0, 2)) > 0:
-                    els, d_else = self.block(depth + 1, defined, 1, 3)
-                    defined = d_then & d_else
-                else:
-                    els = None
-                out.append({"t": "if", "cond": cond, "then": then, "else": els})
+                stmt, defined = self.if_stmt(depth, defined)
+                out.append(stmt)
             else:  # while
                 counter = f"c{self.n_counters}"
                 self.n_counters += 1
@@ -353,14 +375,22 @@ def programs(draw, max_flows=3, max_subflows=2, max_depth=3):
     for j in range(n_sub):
         name = f"s{j}"
         b.intents = [f"{name} u{k}" for k in range(2)]
-        body, defs = b.block(1, set(), 1, 3)
-        subflows.append({"name": name, "body": body})
+        defs = set()
+        pre = b.prelude(defs) if draw(st.booleans()) else []
+        body, defs = b.block(1, defs, 1, 3)
+        subflows.append({"name": name, "body": pre + body})
         b.sub_defs[name] = defs
         b.callable = b.callable + [name]
     flows = []
     for i in range(n_flows):
         name = f"f{i}"
         b.intents = [f"{name} u{k}" for k in range(3)]
-        body, _ = b.block(0, set(), 1, 5)
-        flows.append({"name": name, "intent": f"{name} start", "body": body})
+        defs = set()
+        pre = b.prelude(defs)
+        body, _ = b.block(0, defs, 2, 5)
+        if draw(st.integers(0, 7)) > 0:
+            # usually at least one unconditional bot/user step, so that the flow does not end inside its first event
+            step = {"t": "bot", "intent": draw(st.sampled_from(BOTS))} if draw(st.booleans()) else {"t": "user", "intent": draw(st.sampled_from(b.intents))}
+            body.insert(draw(st.integers(0, len(body))), step)
+        flows.append({"name": name, "intent": f"{name} start", "body": pre + body})
     return {"flows": flows, "subflows": subflows}
